@@ -13,7 +13,7 @@ from pyvc.units import Setup, Unit
 
 
 def ct_setup(ctx):
-    orig_kind = ["text", "dash", "dict-object", "int-object"][ctx.choose(4, "value-kind")]
+    orig_kind = ["text", "dash", "dict-object", "int-object", "dict-object-carrying-__path__(a value that came out of an earlier parse)"][ctx.choose(5, "value-kind")]
     loaded_kind = ["same", "dict-from-config-file", "list-from-config-file", "loader-error", "file-is-not-text(UnicodeDecodeError / embedded null byte: a ValueError)"][ctx.choose(5, "parse_value_or_config")] if orig_kind in ("text", "dash") else "same"
     first = ["accepts", "ValueError", "ValueError-from-PathError", "TypeError"][ctx.choose(4, "first-attempt")]
     second = ["accepts", "ValueError"][ctx.choose(2, "second-attempt")]
@@ -23,7 +23,8 @@ def ct_setup(ctx):
     default_is_spec = default_kind == 1
     cfg_prev = ["no-cfg", "cfg-with-previous-value", "cfg-without", "empty-cfg(a falsy Namespace: nothing parsed so far)"][ctx.choose(4, "cfg")]
     text = "-" if orig_kind == "dash" else z3.String("value")
-    orig = {"text": text, "dash": text, "dict-object": {"a": 1}, "int-object": z3.Int("value")}[orig_kind]
+    earlier_path = Rec("Path", attrs={"tag": "the file an earlier parse read this value from"})
+    orig = {"text": text, "dash": text, "dict-object": {"a": 1}, "int-object": z3.Int("value"), "dict-object-carrying-__path__(a value that came out of an earlier parse)": {"a": 1, "__path__": earlier_path}}[orig_kind]
     config_path = Rec("Path", attrs={"tag": "config file"}) if loaded_kind in ("dict-from-config-file", "list-from-config-file") else None
     loaded = {"a": 1, "__path__": config_path} if loaded_kind == "dict-from-config-file" else ["item.txt"] if loaded_kind == "list-from-config-file" else orig
     default_obj = Rec("Namespace", attrs={"tag": "THE-ACTION-DEFAULT"}, methods={"__getitem__": lambda c, s_, a, k: "pkg.DefaultClass"}) if default_is_spec else None
@@ -82,7 +83,7 @@ def ct_setup(ctx):
     consts = {"NestedArg": ClassRef("NestedArg"), "PathError": ClassRef("PathError")}
     env = {"self": self, "value": orig, "append": False, "cfg": cfg}
     return Setup(env=env, calls=calls, consts=consts, cms={"change_to_path_dir": (enter_dir, exit_dir)},
-                 data=dict(orig_kind=orig_kind, loaded_kind=loaded_kind, first=first, second=second, enable_path=enable_path, valid_string=valid_string, default_obj=default_obj, cfg_prev=cfg_prev,
+                 data=dict(earlier_path=earlier_path, orig_kind=orig_kind, loaded_kind=loaded_kind, first=first, second=second, enable_path=enable_path, valid_string=valid_string, default_obj=default_obj, cfg_prev=cfg_prev,
                            orig=orig, config_path=config_path, loaded=loaded, adapted1=adapted1, adapted2=adapted2, prev_in_cfg=prev_in_cfg))
 
 
@@ -128,6 +129,9 @@ def ct_post(ctx, st, result):
     ctx.oblige("post", "returns-the-adapted-value(or the text itself when the type admits str)" + tag, any(out is x for x in legit), note=repr(out))
     if d["first"] == "accepts":
         ctx.oblige("post", "first-attempt-accepted=>its-result-is-returned,no-retry" + tag, out is d["adapted1"] and len(adapts) == 1)
+    if d["orig_kind"].startswith("dict-object-carrying") and isinstance(out, Rec):
+        # re-parsing a result (parse_object(result) == result): the bookkeeping entry is taken out for the type check and put back on what is returned
+        ctx.oblige("post", "a-mapping-that-came-with-__path__-gets-it-back-on-the-value-returned(re-parsing a result keeps its metadata)" + tag, out.attrs.get("__path__") is d["earlier_path"])
 
 
 def ct_raises(ctx, st, exc):
